@@ -326,13 +326,15 @@ def digest(obs, pool):
     independent of pool numbering, so digests of different traces are comparable)."""
     import hashlib, json
     ls = obs["lines"]
-    def rid(p):
+    def rid(p, virt=0):
         r = pool.items[p - 1]
+        if virt and r["rt"] in ("S", "?"):
+            return "placeholder:" + r["name"]     # which kind of placeholder stands for an id is not observable content
         return json.dumps([r["rt"], r["name"], r["refs"], r["f"], r["tags"]], sort_keys=True)
     def pid(i):
-        return rid(ls[i - 1]["p"]) if i >= 1 else str(i)
+        return rid(ls[i - 1]["p"], ls[i - 1]["virt"]) if i >= 1 else str(i)
     canon = sorted(
-        [rid(l["p"]), l["virt"], l["own"],
+        [rid(l["p"], l["virt"]), l["virt"], l["own"],
          sorted([k, pid(i)] for k, i in l["fwd"]),
          sorted([k, sorted(pid(i) for i in ids)] for k, ids in l["br"]),
          l["lf"], l["nb"], l["et"], l["ends"]] for l in ls)
